@@ -125,3 +125,34 @@ Example C23_example :
   do_filesizeformat 1500000 false = FUnit 1 1500000000 1000000000 /\
   int_shape [TypeError; ValueError; OverflowError] [TypeError; ValueError; OverflowError] KFloatInf = SDefault.
 Proof. vm_compute. repeat split; reflexivity. Qed.
+
+(* --- truncate with a safe (Markup) input: the end marker is escaped AFTER the length
+   arithmetic (s[:length - len(end)] + end with a Markup s).  The bound then holds in raw
+   characters only for end markers that escaping leaves unchanged ... *)
+From JV Require Import Model.FiltHtml.
+
+Theorem C23_truncate_markup_partial : forall s L kw e lw t,
+  escape e = e ->
+  truncate_markup s L kw (Plain e) lw = Ok t -> (len (payload t) <= L + lw)%Z.
+Proof.
+  intros s L kw e lw t He H. unfold truncate_markup in H.
+  destruct (do_truncate lw s L kw [] (Some lw)) as [r0|]; [|discriminate].
+  cbn [payload escape_t] in H. rewrite He in H.
+  destruct (do_truncate lw s L kw e (Some lw)) as [r|] eqn:E; [|discriminate].
+  destruct (truncate_spec lw s L kw e (Some lw) r E) as (H1 & H2 & [[A ->]|(A & B & p & P & ->)]).
+  - destruct (Z.leb_spec (len s) (L + lw)); [|lia]. injection H as <-. exact A.
+  - destruct (Z.leb_spec (len s) (L + lw)); [lia|]. injection H as <-. cbn [payload].
+    rewrite app_length. replace (length p + length e - length e) with (length p) by lia.
+    rewrite firstn_app, firstn_all, Nat.sub_diag. cbn [firstn]. rewrite app_nil_r. lia.
+Qed.
+Print Assumptions C23_truncate_markup_partial.
+
+(* ... and is false otherwise: 8 characters, length 5, end "<<<" give 2 + 12 raw characters
+   (which display as 5) — recorded finding C23-truncate-markup-end *)
+Theorem C23_truncate_markup_refuted : exists s L kw e lw t,
+  truncate_markup s L kw (Plain e) lw = Ok t /\ (len (payload t) > L + lw)%Z.
+Proof.
+  exists [97;97;97;97;97;97;97;97]%N, 5%Z, true, [60;60;60]%N, 0%Z,
+         (Mk [97;97; 38;108;116;59; 38;108;116;59; 38;108;116;59]%N).
+  vm_compute. split; reflexivity.
+Qed.
